@@ -936,6 +936,15 @@ func init() {
 			Class:    c09Class,
 			Extra: func(tier string, rng *rand.Rand, res *Result) {
 				res.Traces = len(res.Cases)
+				retried := 0
+				for _, c := range res.Cases {
+					if strings.Contains(string(c), `"retries":0`) {
+						continue
+					}
+					retried++
+				}
+				res.Stats["scenarios_rerun_for_timing"] = retried
+				c09WheelExtra(a.Out, tier, rng, res)
 				res.Stats["slack_ms"] = c09SlackMs
 				res.Stats["model_tolerance_ms"] = []int{c09ModelTolLo, c09ModelTolHi}
 				res.Stats["timing_rule"] = "a deadline overshoot counts only if it reproduces in three immediate re-runs of the same scenario"
